@@ -46,15 +46,30 @@ def _responder(framings: list[str]) -> typing.Callable[[Req, int], Resp]:
     return respond
 
 
+def _chunks(is_async: bool) -> typing.Any:
+    """A body of unknown length: sent chunked, the terminating chunk is a
+    write of its own."""
+    if is_async:
+        async def agen() -> typing.AsyncIterator[bytes]:
+            yield b"p"
+            yield b"q"
+
+        return agen()
+    return iter([b"p", b"q"])
+
+
 @harness(
     "C01", "h1_sequence",
-    quick=[{"flavour": fl, "R": 2, "_pre": pre} for fl in ("sync", "async") for pre in ("fk == 0", "fk > 0 and f1 == 0 and b1 == 0")],
+    quick=[{"flavour": fl, "R": 2, "_pre": pre} for fl in ("sync", "async") for pre in ("fk == 0", "fk > 0 and f1 == 0 and b1 == 0")]
+    # U: the first exchange is a chunked upload that the server answers as soon as it has the head
+    + [{"flavour": fl, "R": 2, "U": 1, "_pre": "fk > 0 and f0 <= 1 and f1 == 0 and b0 == 0 and b1 == 0"} for fl in ("sync", "async")],
     thorough=[{"flavour": fl, "R": 3, "_pre": f"f0 == {f} and fk == 0"} for fl in ("sync", "async") for f in range(7)]
-    + [{"flavour": fl, "R": 2, "_pre": "fk > 0"} for fl in ("sync", "async")],
+    + [{"flavour": fl, "R": 2, "_pre": "fk > 0"} for fl in ("sync", "async")]
+    + [{"flavour": fl, "R": 2, "U": 1, "_pre": "fk > 0"} for fl in ("sync", "async")],
     example=dict(f0=1, b0=1, f1=0, b1=0, f2=0, b2=0, fk=0, fkind=0, cut=0),
     require=("reused", "not-reused", "early-close"),
     timeout={"quick": 300, "thorough": 1200},
-    symbolic="per exchange: response framing (Content-Length, chunked, close-delimited, HTTP/1.0, Connection: close, 204, two interim 1xx) and caller behaviour (read all / read one part then close / close at once); a fault at operation fk of kind fkind; one-byte-per-read or whole reads",
+    symbolic="per exchange: response framing (Content-Length, chunked, close-delimited, HTTP/1.0, Connection: close, 204, two interim 1xx) and caller behaviour (read all / read one part then close / close at once); a fault at operation fk of kind fkind; one-byte-per-read or whole reads; U shards: the first exchange is a chunked upload answered early by the server (response complete before the request is)",
     bounds="R = 2 (quick) / 3 (thorough) consecutive exchanges to one origin with max_connections=1",
     outside="more exchanges; servers that send more than one final response (excluded by the property)",
     stubs=("echo server: the request target comes back in a header and in the body",),
@@ -82,11 +97,23 @@ def _h1_sequence(is_async: bool, fr: list[str], bh: list[str], fk: int, fkind: i
                fault_kind=fkind, cuts="one" if one else None)
     ext = {"timeout": {"pool": 0, "read": 5, "write": 5, "connect": 5}}
     sig = "h1seq"
+    upload = bool(shard("U", 0))
+    if upload:
+        sig = "h1seq-upload"
+
+        def early(*_a: typing.Any) -> None:
+            for o in su.origins:
+                o.early = True
+
+        su.net.on_event = early
     P.note(framings=fr, behaviours=bh, fault=(fk, fkind), one=one)
     for i, (f, b) in enumerate(zip(fr, bh)):
         tok = f"/x{i}".encode()
         nsock = len(su.net.socks)
-        o = su.api.open(su.pool, "POST" if i % 2 else "GET", su.url(f"x{i}"), content=b"pq" if i % 2 else None, extensions=ext)
+        if upload and i == 0:
+            o = su.api.open(su.pool, "POST", su.url(f"x{i}"), content=_chunks(is_async), extensions=ext)
+        else:
+            o = su.api.open(su.pool, "POST" if i % 2 else "GET", su.url(f"x{i}"), content=b"pq" if i % 2 else None, extensions=ext)
         if len(su.net.socks) > nsock:
             P.cover("not-reused" if i else "first")
         elif i:
